@@ -341,4 +341,55 @@ def r4_reset(ctx):
     ctx.check(ok, ce.qual + "#frame", "cluster table reset" if ok else "reset keeps clusters", where=ce, node=st_fr[0] if st_fr else ce.node)
 
 
-RULES = [r1_bounded_write, r2_binning, r3_representation_switch, r4_reset]
+def r5_clusters_addressed_by_label(ctx):
+    """The id-addressed accessors of the cluster table agree on what an id is - the row's index LABEL (ids keep their value after other clusters were removed): get_frame_values / set_frame_values / remove_from_frame select `id_list` through the index (query on `index`, .loc, .drop(index=..), index.isin), never by position (boolean / integer arrays indexed with the ids, .iloc, .take)."""
+    n = 0
+    for name in ("get_frame_values", "set_frame_values", "remove_from_frame"):
+        f = ctx.func(f"{CH}.{name}")
+        if "id_list" not in f.params:
+            continue
+        n += 1
+        uses = [x for x in ast.walk(f.node) if isinstance(x, ast.Name) and x.id == "id_list" and isinstance(x.ctx, ast.Load)]
+        label, positional = [], []
+        from sa.index import ancestors as _anc6
+
+        for u in uses:
+            par_chain = list(_anc6(u))
+            how = None
+            for a in par_chain:
+                if isinstance(a, ast.stmt):
+                    break
+                if isinstance(a, ast.JoinedStr) and "index" in norm(a):
+                    how = "label"
+                    break
+                if isinstance(a, ast.Call) and isinstance(a.func, ast.Attribute) and a.func.attr in ("isin", "drop", "reindex", "query", "difference", "intersection"):
+                    how = "label"
+                    break
+                if isinstance(a, ast.keyword) and a.arg == "index":
+                    how = "label"  # DataFrame(..., index=id_list) aligned by DataFrame.update
+                    break
+                if isinstance(a, ast.Subscript) and u in list(ast.walk(a.slice)):
+                    base = a.value
+                    if isinstance(base, ast.Attribute) and base.attr in ("loc", "at"):
+                        how = "label"
+                    elif isinstance(base, ast.Attribute) and base.attr in ("iloc", "iat", "values"):
+                        how = "position"
+                    else:
+                        how = "position"  # plain array / frame indexing with the ids
+                    break
+                if isinstance(a, ast.Call) and isinstance(a.func, ast.Attribute) and a.func.attr in ("take", "delete"):
+                    how = "position"
+                    break
+                if isinstance(a, ast.Call) and call_name(a) in ("np.delete", "np.take", "numpy.delete", "numpy.take"):
+                    how = "position"
+                    break
+            if how == "label":
+                label.append(u)
+            elif how == "position":
+                positional.append(u)
+        ok = bool(label) and not positional
+        ctx.check(ok, f.qual + "#ids-are-labels", "ids select rows through the index labels" if ok else (f"`{norm(enclosing_stmt(positional[0]))[:70]}` uses the ids as row POSITIONS while the sibling accessors use them as index labels: after an earlier removal the wrong cluster is removed / changed" if positional else "id_list is not used to select rows by label"), where=f, node=enclosing_stmt(positional[0]) if positional else f.node)
+    ctx.floor(n, 3)
+
+
+RULES = [r5_clusters_addressed_by_label, r1_bounded_write, r2_binning, r3_representation_switch, r4_reset]
